@@ -12,6 +12,11 @@ package main
 //   c14.gen <tag> <text> <expected declarations…>    the real tlgen binary built from the working tree: run
 //                                                    twice, byte identity, go build + go vet of the output with
 //                                                    a stub Client, declarations read back with go/ast
+//   c14.regen <tag> <text | @relative schema path>   in this process: ParseSchema ONCE, then gen.NewGenerator +
+//                                                    Generate from that same schema object by three generators
+//                                                    (one of them twice) into fresh directories, then from a
+//                                                    fresh parse: all outputs byte-identical to the first, the
+//                                                    parsed schema object unchanged (deep dump up to capacity)
 //   c14.shipped <relative schema path>               the same on the schema the repository feeds the generator
 //   c14.sortfact                                     go/ast facts: every range over a map in gen/ is one of the
 //                                                    known sites and every known sort before emission is there
@@ -220,6 +225,11 @@ func c14Exec(op []string) string {
 			return "bad-op"
 		}
 		return c14GenOp(op[1], c14Unesc(op[2]))
+	case "c14.regen":
+		if len(op) != 3 {
+			return "bad-op"
+		}
+		return c14Regen(c14Unesc(op[2]))
 	case "c14.shipped":
 		if len(op) != 2 {
 			return "bad-op"
@@ -261,6 +271,10 @@ func c14Judge(op []string, out string) string {
 		want := "gen=ok same=1 build=ok vet=ok D=" + c14Show(c14UnescExpected(exp))
 		if out != want {
 			return "generated package (" + op[1] + "): " + c14GenWhy(out, want)
+		}
+	case "c14.regen":
+		if out != c14RegenOK {
+			return "generating again from the same parsed schema object (three generators, one of them twice, then a fresh parse) does not give byte-identical files / leaves the caller's schema changed: " + out
 		}
 	case "c14.shipped":
 		if out != "parse=ok gen=ok same=1 build=ok vet=ok" {
@@ -365,7 +379,9 @@ func c14Gen(g *G) {
 		for _, d := range []*c14Def{boolFn, enumFn, vecFn} {
 			w.items = append(w.items, c14Item{kind: "def", def: d})
 		}
-		g.Emit(fmt.Sprintf("c14.gen witness-generator %s %s", c14Esc(c14Render(w, c14Layout{}, r)), c14ExpectDecls(w)), "witness")
+		wt := c14Render(w, c14Layout{}, r)
+		g.Emit(fmt.Sprintf("c14.gen witness-generator %s %s", c14Esc(wt), c14ExpectDecls(w)), "witness")
+		g.Emit("c14.regen witness-generator "+c14Esc(wt), "witness", "regenerate")
 	}
 
 	// (1) every schema file of the repository
@@ -388,6 +404,7 @@ func c14Gen(g *G) {
 		g.Emit(c14ParseOp("file:"+filepath.ToSlash(rel), string(b), exp), "file")
 	}
 	g.Emit("c14.shipped schemes/api_latest.tl", "shipped")
+	g.Emit("c14.regen shipped @schemes/api_latest.tl", "shipped", "regenerate")
 	g.Emit("c14.sortfact", "fact")
 
 	// (2) generated schemas in varying layouts: parser correspondence + structure oracle
@@ -449,7 +466,9 @@ func c14Gen(g *G) {
 		if exp == "" {
 			exp = "="
 		}
-		g.Emit(fmt.Sprintf("c14.gen spell%d %s %s", i, c14Esc(c14Render(s, c14Layout{}, r)), exp), "generate", "generate-spellings")
+		text := c14Render(s, c14Layout{}, r)
+		g.Emit(fmt.Sprintf("c14.gen spell%d %s %s", i, c14Esc(text), exp), "generate", "generate-spellings")
+		g.Emit(fmt.Sprintf("c14.regen spell%d %s", i, c14Esc(text)), "regenerate")
 	}
 	for i, n := 0, g.N(12, 100); i < n; i++ {
 		o := c14GenOpts{forGen: true, size: 2 + r.Intn(9), tricky: i%2 == 0, clash: i%3 != 2}
@@ -460,5 +479,12 @@ func c14Gen(g *G) {
 			exp = "="
 		}
 		g.Emit(fmt.Sprintf("c14.gen g%d %s %s", i, c14Esc(text), exp), "generate")
+		g.Emit(fmt.Sprintf("c14.regen g%d %s", i, c14Esc(text)), "regenerate")
+	}
+	// (6) several generations from one parsed schema object in this process (no compiler involved: many)
+	for i, n := 0, g.N(60, 600); i < n; i++ {
+		o := c14GenOpts{forGen: true, size: 1 + r.Intn(10), tricky: i%2 == 0, clash: i%3 != 2, spell: i%5 == 0}
+		s, _ := c14RandSchema(r, o)
+		g.Emit(fmt.Sprintf("c14.regen r%d %s", i, c14Esc(c14Render(s, c14Layout{}, r))), "regenerate")
 	}
 }
